@@ -846,9 +846,18 @@ pub fn c15(tier: &str, seed: u64) -> Vec<Case> {
             let (tx, rx) = std::sync::mpsc::channel::<InstanceInformation>();
             let mut st2: ResourceRecordManager<'static> = ResourceRecordManager::new();
             let mut ch = Some(tx);
-            for w in &wires { let p = Packet::parse(w).unwrap(); sync_add_response_to_resources(p, &service, &own, &mut st2, &mut ch); }
+            let mut all_sync_reports: Vec<String> = vec![];
+            for w in &wires {
+                let p = Packet::parse(w).unwrap();
+                let ptxt = text::packet(&p);
+                sync_add_response_to_resources(p, &service, &own, &mut st2, &mut ch);
+                // what this one response put on the channel, against the model's `reports`
+                let these: Vec<String> = rx.try_iter().map(|i| inst_text(&i, &i.unescaped_instance_name())).collect();
+                v.push(Case::new(format!("mdns P {} {} {}", text::name(&service), text::name(&own), ptxt), sorted(these.clone())).tag("channel-report"));
+                all_sync_reports.extend(these);
+            }
             drop(ch);
-            let sync_reports: Vec<String> = rx.iter().map(|i| inst_text(&i, &i.unescaped_instance_name())).collect();
+            let sync_reports: Vec<String> = all_sync_reports;
             let (wires_c, service_c, own_c) = (wires.clone(), service.clone(), own.clone());
             watch("async on_discovery channel");
             let async_reports: Vec<String> = {
@@ -904,6 +913,52 @@ pub fn c15(tier: &str, seed: u64) -> Vec<Case> {
             for (n, i) in &advertised { let t = inst_text(i, n); if !has_empty_key && !sync_reports.contains(&t) { cc = cc.fail("not-reported", format!("advertised instance {} was never reported on the channel", n)); } }
             v.push(cc);
         }
+        v.push(c);
+    }
+    // a peer that hosts two instances of the service announces both in ONE response (what a responder does
+    // when asked for the service's PTR records): each must be reported as itself on the on_discovery channel
+    for it in 0..(if thorough { 600 } else { 60 }) {
+        let mut p = Packet::new_reply(0);
+        let mut advertised: Vec<(String, InstanceInformation)> = vec![];
+        let names = if it % 2 == 0 { ["alpha", "beta"] } else { ["Printer", "printer"] };
+        for (k, nm) in names.iter().enumerate() {
+            let mut inst = InstanceInformation::new(nm.to_string()).with_ip_address(IpAddr::V4(Ipv4Addr::from(0x0A000010 + (k as u32) + 2 * r.below(3) as u32))).with_port(8100 + k as u16 + 2 * r.below(2) as u16);
+            if r.chance(1, 2) { inst = inst.with_attribute("id".to_string(), Some(format!("{}", k))); }
+            let full = Name::new(&format!("{}.{}", inst.escaped_instance_name(), "_verif._tcp.local")).unwrap().into_owned();
+            let recs = inst.clone().into_records(&full, 120).unwrap();
+            for (j, rec) in recs.into_iter().enumerate() { if (j + it) % 3 == 0 { p.additional_records.push(rec) } else { p.answers.push(rec) } }
+            advertised.push((nm.to_string(), inst));
+        }
+        if it % 3 == 0 { p.answers.reverse(); }
+        let wire = p.build_bytes_vec_compressed().unwrap();
+        let (tx, rx) = std::sync::mpsc::channel::<InstanceInformation>();
+        let mut st: ResourceRecordManager<'static> = ResourceRecordManager::new();
+        // a running discovery always holds the PTR record of its own instance under the service name
+        st.add_authoritative_resource(ResourceRecord::new(service.clone(), CLASS::IN, 0, RData::PTR(PTR(own.clone()))));
+        let mut ch = Some(tx);
+        sync_add_response_to_resources(Packet::parse(&wire).unwrap(), &service, &own, &mut st, &mut ch);
+        drop(ch);
+        let reports = sorted(rx.iter().map(|i| inst_text(&i, &i.unescaped_instance_name())).collect());
+        let (wire_c, service_c, own_c) = (wire.clone(), service.clone(), own.clone());
+        let areports = {
+            let rt = tokio::runtime::Builder::new_current_thread().build().unwrap();
+            rt.block_on(async move {
+                let (tx, mut rx) = tokio::sync::mpsc::channel::<InstanceInformation>(8);
+                let mut st3: ResourceRecordManager<'static> = ResourceRecordManager::new();
+                let mut ch = Some(tx);
+                simple_mdns::verif::async_add_response_to_resources(Packet::parse(&wire_c).unwrap(), &service_c, &own_c, &mut st3, &mut ch).await;
+                drop(ch);
+                let mut got = vec![];
+                while let Some(i) = rx.recv().await { got.push(inst_text(&i, &i.unescaped_instance_name())); }
+                sorted(got)
+            })
+        };
+        let want = sorted(advertised.iter().map(|(n, i)| inst_text(i, n)).collect());
+        let known = sorted(st.get_domain_resources(&service, DomainResourceFilter::cached()).filter_map(|rs| instance_from_records(&service, rs)).map(|i| inst_text(&i, &i.unescaped_instance_name())).collect());
+        let mut c = Case::new(format!("mdns P {} {} {}", text::name(&service), text::name(&own), text::packet(&Packet::parse(&wire).unwrap())), reports.clone()).tag("two-instances-one-response");
+        if known != want { c = c.fail("discovery-differs", format!("advertised {} known {}", want, known)); }
+        if reports != want { c = c.fail("reports-merged", format!("two instances announced in one response: advertised {} ; reported on the channel {}", want, reports)); }
+        else if areports != want { c = c.fail("reports-merged", format!("tokio flavour: advertised {} ; reported on the channel {}", want, areports)); }
         v.push(c);
     }
     v.push(live_pair());
